@@ -95,6 +95,7 @@ class C05(Prop):
         seams.SHADOW_ON = shadow
         seams.reset_shadow()
         run = QRun(sim, plan)
+        has_rules = any(q.get("rule") or q.get("head") for q in plan["pool"]["queries"])
         enabled = mode != "B"
         (enable_caching if enabled else disable_caching)()
         outs = []
@@ -109,6 +110,8 @@ class C05(Prop):
                         outs.append(None)
                     else:
                         outs.append(run.full(op[1]))
+                        if has_rules:
+                            run.forget_inferred_instances()
                 sim.end_op()
         finally:
             run.finish()
